@@ -15,7 +15,7 @@ from __future__ import annotations
 
 import ast
 
-from ..astx import call_name, calls_named, dotted, enclosing_stmt, expand, kwarg, last
+from ..astx import reach_assuming, call_name, calls_named, dotted, enclosing_stmt, expand, kwarg, last
 from ..cfg import CFG, exprs_in_node
 from ..index import AnchorError, enclosing_function, parent, qualname_of, walk_shallow
 from ..selftest import Twin
@@ -155,9 +155,11 @@ def run(chk) -> None:
             yv = next(x for x in exprs_in_node(y) if isinstance(x, ast.Yield)).value
             name = ast.unparse(yv) if yv is not None else ""
             stop_tests = [n for n in cfg.nodes if n.kind == "test" and " ".join(ast.unparse(n.ast.test).split()) == f"isinstance({name}, StopEvent)"]
-            # after yielding, the only way to yield again is the F edge of the StopEvent test
-            again = cfg.reach([y], blocked_edges=[(t, "F") for t in stop_tests], labels_excluded=("exc", "cancel"), include_starts=False)
-            ok = bool(stop_tests) and y not in again
+            # knowing that the item just yielded is a StopEvent, no path leads to another yield (the test may be direct, or
+            # stored in a flag that the loop condition reads)
+            again = reach_assuming(cfg, y, {f"isinstance({name}, StopEvent)": True})
+            mentions = any(f"isinstance({name}, StopEvent)" in " ".join(ast.unparse(x).split()) for x in ast.walk(fc))
+            ok = mentions and y not in again and not any(z in again for z in ys)
             chk.ob("C04.R2", f"the {label} stream stops right after yielding the first StopEvent", ok, m=mc, node=y.ast, fn=fc, instance=f"consumer:{label}:stops",
                    reason="another item can be yielded after a StopEvent was yielded (no `isinstance(item, StopEvent)` exit between two yields)")
             # and the StopEvent itself is yielded (test happens after the yield, not before)
@@ -260,15 +262,30 @@ def run(chk) -> None:
     appends = [n for n in cfgr.nodes if n.ast is not None and any(isinstance(x, ast.Call) and (call_name(x) or "") == "self.tick_buffer.append" and x.args and ast.unparse(x.args[0]) == "tick_result" for x in exprs_in_node(n))]
     chk.floor("C04.R6", "sites buffering a worker result tick", len(appends), 1)
     for n in appends:
-        # a test that recognises "this worker result carries a StopEvent" and awaits cleanup_tasks under it, on every path to the append
+        # a test that recognises "this worker result carries a StopEvent" (directly, or through a boolean helper given the
+        # result tick) whose true side awaits cleanup_tasks before the append, and which every path to the append passes
+        from ..inline import implied_facts
+        from ..index import enclosing_class as _ecls
         good = False
-        for i in ast.walk(rn):
-            if isinstance(i, ast.If) and "StopEvent" in ast.unparse(i.test) and "tick_result" in ast.unparse(expand(i.test, i, depth=2)) + ast.unparse(_enclosing_iter(i)):
-                if any(isinstance(x, ast.Await) and (call_name(x.value) or "").endswith("cleanup_tasks") for s_ in i.body for x in ast.walk(s_)):
-                    outer = _outermost_scan(i)
-                    on = cfgr.nodes_of(outer)
-                    dom = on and n not in cfgr.reach([cfgr.entry], blocked=on)
-                    good = good or bool(dom)
+        cleanup_nodes = [x_ for x_ in cfgr.nodes if x_.ast is not None and any(isinstance(y_, ast.Await) and (call_name(y_.value) or "").endswith("cleanup_tasks") for y_ in exprs_in_node(x_))]
+        for t in cfgr.nodes:
+            if t.kind != "test" or not isinstance(t.ast, ast.If):
+                continue
+            i = t.ast
+            direct = "StopEvent" in ast.unparse(i.test) and "tick_result" in ast.unparse(expand(i.test, i, depth=2)) + ast.unparse(_enclosing_iter(i))
+            via_helper = False
+            for c_ in ast.walk(i.test):
+                if isinstance(c_, ast.Call) and any(isinstance(a_, ast.Name) and a_.id == "tick_result" for a_ in c_.args):
+                    imp = implied_facts(mr, c_, True, _ecls(rn), 2)
+                    via_helper = via_helper or any("StopEvent" in a_ and pol_ for a_, pol_ in imp)
+            if not (direct or via_helper):
+                continue
+            tsucc = [s_ for lab_, s_ in cfgr.succ[t] if lab_ == "T"]
+            cleaned = bool(tsucc) and n not in cfgr.reach(tsucc, blocked=cleanup_nodes, labels_excluded=("exc", "cancel"))
+            outer = _outermost_scan(i)
+            on = cfgr.nodes_of(outer)
+            dom = bool(on) and n not in cfgr.reach([cfgr.entry], blocked=on)
+            good = good or (cleaned and dom)
         chk.ob("C04.R6", "a worker result containing a StopEvent cancels the other workers before its tick is buffered", good, m=mr, node=n.ast, fn=rn, instance="stop-result:cleanup-first",
                reason="other workers may still publish after the StopEvent")
 
@@ -279,6 +296,9 @@ _P = CL_REL
 _B = "packages/llama-index-workflows/src/workflows/plugins/basic.py"
 _H = "packages/llama-index-workflows/src/workflows/handler.py"
 TWINS = [
+    Twin("benign: adapter stream stops through a flag read by the loop", _B, "            while True:\n                item = await self._queues.publish_queue.get()\n                yield item\n                if isinstance(item, StopEvent):\n                    break", "            reached_stop = False\n            while not reached_stop:\n                item = await self._queues.publish_queue.get()\n                yield item\n                reached_stop = isinstance(item, StopEvent)", None),
+    Twin("adapter stream flag is computed but the loop ignores it", _B, "            while True:\n                item = await self._queues.publish_queue.get()\n                yield item\n                if isinstance(item, StopEvent):\n                    break", "            reached_stop = False\n            while True:\n                item = await self._queues.publish_queue.get()\n                yield item\n                reached_stop = isinstance(item, StopEvent)", "C04.R2"),
+    Twin("benign: stop scan through a predicate", _P, "                        for res in tick_result.result:\n                            if isinstance(res, StepWorkerResult) and isinstance(\n                                res.result, StopEvent\n                            ):\n                                await self.cleanup_tasks()\n                                break\n", "                        if any(isinstance(res, StepWorkerResult) and isinstance(res.result, StopEvent) for res in tick_result.result):\n                            await self.cleanup_tasks()\n", None),
     Twin("stop event not published", _P, "                commands.append(\n                    CommandPublishEvent(event=result.result)\n                )  # stop event always published to the stream\n", "", "C04.R1"),
     Twin("failed event dropped", _P, "                    commands.append(\n                        CommandPublishEvent(\n                            event=WorkflowFailedEvent(", "                    (\n                        CommandPublishEvent(\n                            event=WorkflowFailedEvent(", "C04.R1"),
     Twin("cancel publishes after halt", _P, "        CommandPublishEvent(event=WorkflowCancelledEvent()),\n        CommandHalt(exception=WorkflowCancelledByUser()),", "        CommandHalt(exception=WorkflowCancelledByUser()),\n        CommandPublishEvent(event=WorkflowCancelledEvent()),", "C04.R1"),
